@@ -10,7 +10,7 @@ from .util import anchor_attrs
 from .util import const, fut, same_class, self_obj
 
 EZ = "bellows.ezsp"
-KNOWN = list(range(4, 15))
+from ..su import VERSIONS as KNOWN  # noqa: E402  (shared list, filled from EZSP._BY_VERSION)
 
 
 def ez_cls(ctx):
@@ -110,14 +110,15 @@ def r09_2(ctx):
     k in 4..14 to a handler whose VERSION is k and EZSP_LATEST is the largest."""
     repo = ctx.repo
     by = ez_cls(ctx).lookup("_BY_VERSION")
-    ctx.require(isinstance(by, dict) and sorted(by) == KNOWN, "_BY_VERSION:keys", f"_BY_VERSION keys are {sorted(by) if isinstance(by, dict) else by!r}, expected 4..14")
+    ctx.require(isinstance(by, dict) and sorted(by) == list(KNOWN) and list(KNOWN) == list(range(KNOWN[0], KNOWN[-1] + 1)), "_BY_VERSION:keys",
+                f"_BY_VERSION keys are {sorted(by) if isinstance(by, dict) else by!r}: supported versions must be contiguous from 4")
     for k, c in (by.items() if isinstance(by, dict) else []):
         ctx.require(isinstance(c, ClassRef) and c.lookup("VERSION") == k, f"_BY_VERSION:{k}", f"_BY_VERSION[{k}] is {c!r} with VERSION {c.lookup('VERSION') if isinstance(c, ClassRef) else '?'}")
     latest = repo.get(EZ, "EZSP_LATEST")
     ctx.require(latest == max(KNOWN), "EZSP_LATEST", f"EZSP_LATEST = {latest!r}")
     f = repo.func(f"{EZ}:EZSP.version")
     ctx.fn(f)
-    for ncp in KNOWN + [15, 16, 255]:
+    for ncp in list(KNOWN) + [KNOWN[-1] + 1, KNOWN[-1] + 2, 255]:
         px = PX(repo, models=[("self._command", lambda px_, t, a, k, fr: (ncp, Sym("stack_type"), Sym("stack_version")))], inline=same_class(stop=("handle_callback",)))
 
         def setup():
@@ -207,7 +208,8 @@ def r09_6(ctx):
     every version's default list (so the write cannot fail on a lookup), and a default list exists for 4..14."""
     repo = ctx.repo
     d = repo.get("bellows.ezsp.config", "DEFAULT_CONFIG")
-    ctx.require(isinstance(d, dict) and sorted(d) == KNOWN, "DEFAULT_CONFIG:keys", f"DEFAULT_CONFIG keys {sorted(d) if isinstance(d, dict) else d!r}")
+    ctx.require(isinstance(d, dict) and set(KNOWN) <= set(d), "DEFAULT_CONFIG:keys", f"DEFAULT_CONFIG keys {sorted(d) if isinstance(d, dict) else d!r} do not cover "
+                f"the supported versions {list(KNOWN)}")
     cfg_ids = repo.cls("bellows.types.named", "EzspConfigId").members()
     val_ids = repo.cls("bellows.types.named", "EzspValueId").members()
     for v in KNOWN:
